@@ -48,8 +48,48 @@ func (arithEngine) Decode(raw json.RawMessage) (any, error) {
 	return &c, err
 }
 
+// malformedFirst: in every worker process the very first calls for a third of the prefix lengths are calls
+// no correct caller makes - operands that are not 16 bytes long. Whatever those calls do themselves (an
+// error, a panic: the statement is about 128-bit operands only), they must leave nothing behind that
+// changes what later, well-formed calls return.
+var malformedOnce sync.Once
+
+func malformedFirst(ctx *fw.Ctx) {
+	malformedOnce.Do(func() {
+		bad := []net.IP{{10, 0, 0, 0}, nil, {}, make(net.IP, 17), {0xff, 0xff, 0xff, 0xff}, make(net.IP, 8)}
+		good := net.ParseIP("2001:db8::").To16()
+		for p := 0; p <= 128; p++ {
+			if p%3 != 1 {
+				continue
+			}
+			for k, b := range bad {
+				for _, n := range []uint64{3, 0, 1 << 40} {
+					func() {
+						defer func() {
+							if recover() != nil {
+								ctx.Count("arith.malformed_calls_panicked", 1)
+							}
+						}()
+						ctx.Count("arith.malformed_calls_first_in_process", 1)
+						switch k % 3 {
+						case 0:
+							allocators.AddPrefixes(b, n, uint64(p))
+						case 1:
+							allocators.Offset(b, good, p)
+						default:
+							allocators.Offset(good, b, p)
+							allocators.AddPrefixes(b, n, uint64(p))
+						}
+					}()
+				}
+			}
+		}
+	})
+}
+
 func (arithEngine) Run(ctx *fw.Ctx, cs any) {
 	c := cs.(*arithCase)
+	malformedFirst(ctx)
 	if c.One != nil {
 		arithOne(ctx, c.One, newArithState())
 		return
